@@ -170,6 +170,40 @@ def _accept(ck, p, byk):
         shapes.append((bool(gsc) and from_item, low))
     ok = any(s == (True, False) for s in shapes) and all(s[0] for s in shapes)
     ck.decide(rule, "SpellCheck::lint:tested-word", ok, f.span, "contains_exact_word is asked about the span content of the loop's own word (plain: %s, lower-cased: %s)" % (any(s == (True, False) for s in shapes), any(s == (True, True) for s in shapes)))
+    # the other direction: a word is REPORTED only when it is listed neither as written nor in lower case
+    # (the call blocks are used, not the false-edge blocks: when the tests sit in a helper their results are merged
+    # before the branch; a test that was passed on the way to the lint was false because no true edge leads there)
+    f_plain = [bi for (bi, _), sh in zip(exact, shapes) if sh == (True, False)]
+    f_low = [bi for (bi, _), sh in zip(exact, shapes) if sh == (True, True)]
+    true_to_lint = [bi for bi, _ in exact if bool_edges(f, bi) and cfg.reaches(bool_edges(f, bi)[0], [pb], avoid=[head])]
+    f_dial = [bool_edges(f, bi)[1] for bi, _ in dial if bool_edges(f, bi)]
+    blind = [bi for bi, _ in exact if not bool_edges(f, bi)]
+    # a word token without metadata is a word the dictionary did not know when the text was parsed: the None edge of
+    # the switch on that Option also leads to the lint
+    for b in f.blocks:
+        sw = b["t"]
+        if b["cleanup"] or sw["k"] != "switch":
+            continue
+        dl = place_of(sw["discr"])
+        for sx in b["s"]:
+            if sx["k"] == "assign" and sx["lhs"] == dl and sx["rv"]["k"] == "discr":
+                src = sx["rv"].get("place") or []
+                ty = (f.local_tystr(src[0]) or "") if src and all(e == "*" for e in src[1:]) else ""
+                if ty and "Option<" in ty and "WordMetadata" in ty:
+                    none = [x for v, x in sw["targets"] if v == "0"] or [sw["otherwise"]]
+                    f_dial += none
+    if start is not None:
+        okp, wp = cfg.every_path_passes(start, set(f_plain) | set(f_dial), to=[pb])
+        okl, wl = cfg.every_path_passes(start, set(f_low) | set(f_dial), to=[pb])
+        key = "SpellCheck::lint:report-needs-both-misses"
+        detail = "every path to the lint has asked contains_exact_word(word): %s; and contains_exact_word(to_lower(word)): %s (or the false edge of the dialect predicate, or the None edge of the token's metadata)" % (okp, okl)
+        if okp and okl and f_plain and f_low and not true_to_lint:
+            ck.proved(rule, key, f.span, detail)
+        elif blind or true_to_lint:
+            ck.undecided(rule, key, f.span, detail + "; the branch on %d of the tests was not found" % len(blind))
+        else:
+            ck.refuted(rule, key, f.span, detail + ": a path reports the word without having asked for %s - a listed word written in another capitalisation (all capitals with an apostrophe, inner capitals) is reported as misspelt although the dictionary contains it%s"
+                       % ("its lower-cased form" if not okl else "the word as written", " (path %s)" % (wl if not okl else wp)))
     # the pushed lint covers the word token's span
     lints = [s for b in f.blocks if not b["cleanup"] for s in b["s"] if s["k"] == "assign" and s["rv"]["k"] == "agg" and s["rv"].get("name", "").endswith("lint::Lint")]
     ok = len(lints) == 1
